@@ -3,6 +3,7 @@ CONSTANTS
   Threads = {1, 2}
   Names = {"b", "n"}
   Cons = {"n"}
+  Local = FALSE
   Variant = "orig"
 INVARIANT P_AsAlone
 INVARIANT P_LockFree
